@@ -23,7 +23,7 @@
 (*   reverse, re-index only inside the notification step) so that TLC can  *)
 (*   search the coded design for violations of the same invariants.        *)
 (***************************************************************************)
-EXTENDS Integers, Sequences, FiniteSets, TLC, PySeq, Randomization
+EXTENDS Integers, Sequences, FiniteSets, TLC, PySeq, Randomization, Json, IOUtils
 
 CONSTANTS MaxNodes,      \* node ids 1..MaxNodes
           Keys,          \* dict keys (ints)
@@ -677,6 +677,13 @@ Next == (\E n \in Nodes : NextDict(n) \/ NextList(n) \/ NextAny(n)) \/ NextScope
 Spec == Init /\ [][Next]_vars
 
 LevelBound == TLCGet("level") <= MaxLevel
+
+\* Re-running one recorded history (./check Cxx --replay FILE): the next call is the one the script names.
+Script == JsonDeserialize(IOEnv.SCRIPT_FILE)
+ScriptNext == /\ TLCGet("level") <= Len(Script)
+              /\ Next
+              /\ act' = Script[TLCGet("level")]
+SpecScript == Init /\ [][ScriptNext]_vars
 
 ---------------------------------------------------------------------------
 (* Properties                                                              *)
